@@ -62,6 +62,13 @@ WITH RECURSIVE n(i) AS (SELECT 1 UNION ALL SELECT i+1 FROM n WHERE i<500) INSERT
 		{"small", "PRAGMA page_size=512;" + small},
 		{"large-300-pages", "PRAGMA page_size=512;" + large},
 		{"small-auto-vacuum", "PRAGMA page_size=512; PRAGMA auto_vacuum=INCREMENTAL;" + small},
+		// written in SQLite's legacy file format (schema format 3): DESC is ignored until a VACUUM rewrites the
+		// file as format 4, where the same definitions are stored descending
+		{"legacy-format-desc", `PRAGMA page_size=512; CREATE TABLE t (id INTEGER PRIMARY KEY, v, pad); CREATE INDEX t_v ON t (v DESC, pad);
+CREATE TABLE w (k TEXT, v, PRIMARY KEY (k DESC)) WITHOUT ROWID; CREATE INDEX w_v ON w (v);
+INSERT INTO t (v, pad) VALUES ('a', 'p1'), ('b', 'p2'), ('c', 'p3'), ('a', 'p4'), ('d', 'p5'), ('e', 'p6');
+INSERT INTO w VALUES ('a', 1), ('b', 2), ('c', 3), ('d', 4);
+ALTER TABLE w ADD COLUMN lg DEFAULT 'legacy';`},
 	}
 }
 
@@ -119,7 +126,7 @@ func runC08(r *ev.Run) {
 	if r.Thorough() {
 		depth = 4
 	}
-	r.Rule = fmt.Sprintf("every sequence of length <=%d (quick tier: every sequence of length 2, and of length 3 over the 8 operations that move pages, roots or definitions) over an alphabet of %d write transactions committed by a real SQLite connection in another process (insert, update, delete, bulk insert growing the file past its size at Open, delete+VACUUM shrink, VACUUM to another page size, create/drop table, create/drop index, ALTER TABLE ADD COLUMN, drop+recreate a table under the same name, WITHOUT ROWID change, incremental_vacuum) from 3 base databases (8 pages, auto_vacuum; 300+ pages > the 100 page cache with sequences one step shorter); handles opened at depth 0 and at every later depth, plus at every depth two handles whose first transaction comes only after the next commit (one starting with the high level API, one with RLock + low level reads) and one opened at depth 0 that is first read after the last commit; the sequences of length <=2 (all, thorough) are run again with a writer that uses synchronous=OFF and, after every commit, opens its next transaction at once and leaves it open while the handles read (RESERVED lock, journal header already complete); one handle whose first call after every commit is Columns() of every table (compared with a fresh handle; dropped tables must be unknown); after every step every awake handle is read through the high level API and through the low level API inside RLock/RUnlock, twice; oracle: equals SQLite's dump of the file at that moment and a freshly opened handle's dump. non-trivial = sequences containing a write that changes the file", depth, len(c08Alphabet))
+	r.Rule = fmt.Sprintf("every sequence of length <=%d (quick tier: every sequence of length 2, and of length 3 over the 8 operations that move pages, roots or definitions) over an alphabet of %d write transactions committed by a real SQLite connection in another process (insert, update, delete, bulk insert growing the file past its size at Open, delete+VACUUM shrink, VACUUM to another page size, create/drop table, create/drop index, ALTER TABLE ADD COLUMN, drop+recreate a table under the same name, WITHOUT ROWID change, incremental_vacuum) from 4 base databases (8 pages; auto_vacuum; legacy file format with DESC indexes, which a VACUUM turns into format 4; 300+ pages > the 100 page cache with sequences one step shorter); handles opened at depth 0 and at every later depth, plus at every depth two handles whose first transaction comes only after the next commit (one starting with the high level API, one with RLock + low level reads) and one opened at depth 0 that is first read after the last commit; the sequences of length <=2 (all, thorough) are run again with a writer that uses synchronous=OFF and, after every commit, opens its next transaction at once and leaves it open while the handles read (RESERVED lock, journal header already complete); one handle whose first call after every commit is Columns() of every table (compared with a fresh handle; dropped tables must be unknown); after every step every awake handle is read through the high level API and through the low level API inside RLock/RUnlock, twice; oracle: equals SQLite's dump of the file at that moment and a freshly opened handle's dump. non-trivial = sequences containing a write that changes the file", depth, len(c08Alphabet))
 	r.Set("depth", depth)
 	dir := ev.TmpDir("c08")
 	defer os.RemoveAll(dir)
@@ -190,6 +197,9 @@ func runC08(r *ev.Run) {
 		for i, b := range bases {
 			path := filepath.Join(dir, fmt.Sprintf("base%d.sqlite", i))
 			p.MustOK("open " + path)
+			if strings.HasPrefix(b.name, "legacy") {
+				p.MustOK("legacy")
+			}
 			p.MustOK("exec " + b.setup)
 			p.MustOK("close")
 			baseImg[i], _ = os.ReadFile(path)
